@@ -43,7 +43,7 @@ theorem wf_clauses {P : Partition} (h : WF P) :
   obtain ⟨lvl, round, hwf⟩ := h
   refine ⟨lvl, round, ?_⟩
   intro r hr
-  obtain ⟨_, h2, h3, h4, h5, h6, h7, _, h9, _, _, _, _, h14, _, _, _, h18, _, _, h21⟩ := hwf r hr
+  obtain ⟨_, h2, h3, h4, h5, h6, h7, _, h9, _, _, h14, _, _, _, h18, _, _, h21⟩ := hwf r hr
   exact ⟨⟨h4, h5⟩, h7, h9, h6, h14, ⟨h2, h3⟩, ⟨h18, h21⟩⟩
 
 /-- **Dependency levels respect dependencies** (model of `_calculate_dependency_levels` /
